@@ -278,6 +278,17 @@ def main():
             cands = [x for x in items if x[1] == "next" and re.search(rf"impl.*Iterator\s+for\s+{it}\b", x[0])]
             if len(cands) != 1:
                 raise CannotTranslate(f"{file}: expected exactly one `Iterator::next` for {it}")
+            # closed world: the provided methods of `Iterator` (nth, skip, step_by, size_hint, count, last, …) are
+            # specified in terms of `next`; an override, or another iterator trait implemented for the type, is
+            # outside the translated subset (C12 `source_iterators` speaks about `next` only)
+            extra = [x[1] for x in items if x[1] != "next" and re.search(rf"impl.*Iterator\s+for\s+{it}\b", x[0])]
+            if extra:
+                raise CannotTranslate(f"{file}: `impl Iterator for {it}` overrides provided methods {extra}")
+            text = open(f"{repo}/{file}").read()
+            text = re.sub(r"//[^\n]*", "", text)
+            traits = set(re.findall(rf"impl\s*(?:<[^>{{}}]*>)?\s*([A-Za-z_:]+)\s+for\s+{it}\b", text))
+            if traits - {"Iterator"}:
+                raise CannotTranslate(f"{file}: {it} implements further traits {sorted(traits - {'Iterator'})}")
             body = P2(cands[0][3]).block_body()
             tr = Tr(acc)
             term = tr.block(body, {"self": "self"}, None)
